@@ -140,4 +140,22 @@ theorem lt_size_of_le (x t : ℕ) (h : 2 ^ t ≤ x) : t + 1 ≤ Nat.size x := Na
 theorem and_pow_is_bit (x k : ℕ) : x &&& 2 ^ k = (x / 2 ^ k % 2) * 2 ^ k := by
   rw [Nat.and_two_pow, Nat.toNat_testBit]
 
+/-- one wrap in either direction -/
+theorem mod_wrap_up (x : ℤ) (t : ℕ) (h0 : (2:ℤ) ^ t ≤ x) (h1 : x < 2 * (2:ℤ) ^ t) :
+    x % (2:ℤ) ^ t = x - (2:ℤ) ^ t := by
+  have hp : (0:ℤ) < 2 ^ t := by positivity
+  have h : x = (x - (2:ℤ) ^ t) + (2:ℤ) ^ t * 1 := by ring
+  rw [h, Int.add_mul_emod_self_left]
+  have : (x - (2:ℤ) ^ t + (2:ℤ) ^ t * 1 - (2:ℤ) ^ t) = x - (2:ℤ) ^ t := by ring
+  rw [this]
+  exact Int.emod_eq_of_lt (by linarith) (by linarith)
+theorem mod_wrap_down (x : ℤ) (t : ℕ) (h0 : x < 0) (h1 : -(2:ℤ) ^ t ≤ x) :
+    x % (2:ℤ) ^ t = x + (2:ℤ) ^ t := by
+  have hp : (0:ℤ) < 2 ^ t := by positivity
+  have h : x = (x + (2:ℤ) ^ t) + (2:ℤ) ^ t * (-1) := by ring
+  rw [h, Int.add_mul_emod_self_left]
+  have : (x + (2:ℤ) ^ t + (2:ℤ) ^ t * (-1) + (2:ℤ) ^ t) = x + (2:ℤ) ^ t := by ring
+  rw [this]
+  exact Int.emod_eq_of_lt (by linarith) (by linarith)
+
 end PyInt
